@@ -26,7 +26,8 @@ EXPLANATION = (
     'Position::makeMove, MoveGen::isLegal/givesCheck, Search::SEE/getMoveExtend, TextIO::moveToString or a PV vector only after it was '
     'found in a generated move list (selectHashMove true, or the membership idiom with a per-candidate flag); (5) TBProbe::extendPV '
     'truncates the PV at exactly the number of moves it replayed before it appends tablebase moves generated from that position.'
-    ' (6) the MultiPV count that indexes / offsets the root list or is handed on with it is min(.., rootMoves.size()) at every use and the list is not resized after the clamp.')
+    ' (6) the MultiPV count that indexes / offsets the root list or is handed on with it is min(.., rootMoves.size()) at every use and the list is not resized after the clamp.'
+    ' Added later; (7) the text printed for a move (bestmove, ponder, pv, currmove) is its UCI form: the suffix SearchListener::moveToString writes for each promotion piece, obtained by interpreting the printer for every promotion code, is the letter uciStringToMove reads back as that piece, and the listener formats moves only through the checked printers.')
 UNDECIDED = ('that the chosen move is good; playability of PVs beyond the validated-prefix rule; MultiPV distinctness by value; score '
              'ranges (see C04 for the mate-distance encoding).')
 ASSUMPTIONS = ['MoveGen::pseudoLegalMoves + removeIllegal produce exactly the legal moves (property C01)',
@@ -49,6 +50,10 @@ def run(fb, rep, tier):
     c3_hashmove(fb, rep)
     c5_pv_splice(fb, rep)
     c6_count_clamp(fb, rep)
+    # .7 the text the engine prints for a move (bestmove, ponder, pv, currmove) is that move's UCI form (shared with C17.1)
+    from . import C17
+    C17.uci_promotion_letters(fb, rep, 'C03.7', ('SearchListener::moveToString',))
+    c7_printer_single(fb, rep)
 
 
 # ----------------------------------------------------------------------------- .1
@@ -549,3 +554,22 @@ def _callee_resizes(fb, callee, argidx):
         if e.get('k') == 'asg' and isinstance(_strip(e.get('l')), dict) and _strip(e['l']).get('id') == pid:
             return True
     return False
+
+
+def c7_printer_single(fb, rep):
+    """K5: every move the search listener prints goes through the one printer that C03.7 / C17.1 check."""
+    clause = 'C03.7'
+    n = 0
+    bad = []
+    for f in fb.funcs.values():
+        if not (f.has_cfg and f.d.get('cls') == 'SearchListener'):
+            continue
+        for b, i, e in f.events():
+            if e.get('k') == 'call' and e.get('op') == '<<':
+                for a in e.get('args', []):
+                    for x in walk(a):
+                        if x.get('k') == 'call' and x.get('repo') and ('Move' in (x.get('t') or '') or cname(x).split('::')[-1] in ('moveToUCIString', 'moveToString')):
+                            n += 1
+                            if cname(x) not in ('SearchListener::moveToString', 'TextIO::moveToUCIString'):
+                                bad.append((f.sname, cname(x)))
+    rep.ob(clause, 'K5 who-may-print', 'the search listener formats moves only with the checked UCI printers', not bad, '', 'formatter calls in output statements: %d; others: %s' % (n, bad), 'SearchListener')
